@@ -61,9 +61,9 @@ ALTS = {
     'currency': ['USD'],
     'currencies': [(), ('USD',), ('USD', 'EUR', 'GBP')],
     'booking': [None, 'STRICT'],
-    'tolerance': [None, D('0.01')],
-    'leading_comment': [None, 'lc', 'two\nlines'],
-    'trailing_comment': [None, 'tc'],
+    'tolerance': [None, D('0.01'), D('0')],
+    'leading_comment': [None, 'lc', 'two\nlines', 'a\n \n\nb'],
+    'trailing_comment': [None, 'tc', 'x\n\t\ny'],
     'inline_comment': [None, 'ic', ''],
     'meta': META,
     'indent_by': ['    ', '\t'],
@@ -79,12 +79,12 @@ ALTS = {
     'type': ['t', STR_TRICKY], 'name': ['nm'], 'description': ['d', STR_TRICKY], 'key': ['kk'], 'filename': ['f.bean'], 'comment': ['c', STR_TRICKY],
     'query_string': ['SELECT 1'], 'config': [None, 'cfg', STR_TRICKY], 'label': [None, 'lb'], 'tag': ['tg'],
     'merge': [False, True],
-    'number_per': [None, D('1'), D('-1')], 'number_total': [None, D('2')],
+    'number_per': [None, D('1'), D('-1'), D('0')], 'number_total': [None, D('2'), D('0')],
     'amount': [lambda: M.Amount.from_value(D('1.5'), 'EUR'), lambda: M.Amount.from_value(D('-1.5'), 'EUR')],
     'values': None,   # custom: separate cell
 }
 PER_CLASS = {
-    ('Posting', 'flag'): [None, '!', 'P'], ('Posting', 'number'): [None, D('1'), D('-2.50')], ('Posting', 'currency'): [None, 'USD'],
+    ('Posting', 'flag'): [None, '!', 'P'], ('Posting', 'number'): [None, D('1'), D('-2.50'), D('0')], ('Posting', 'currency'): [None, 'USD'],
     ('Balance', 'number'): [D('1'), D('-2.50')], ('Amount', 'number'): [D('1'), D('-2.50'), D('0')], ('Tolerance', 'number'): [D('0.01')],
     ('UnitPrice', 'number'): [None, D('3')], ('TotalPrice', 'number'): [None, D('3')], ('UnitPrice', 'currency'): [None, 'GBP'], ('TotalPrice', 'currency'): [None, 'GBP'],
     ('CostSpec', 'currency'): [None, 'EUR'], ('CostSpec', 'date'): [None, DT(2000, 1, 2)], ('CompoundAmount', 'currency'): ['EUR'],
@@ -143,14 +143,42 @@ def make_construct(cname, fixed=None, twin=False):
                 raise Fail('%s.from_value(%r) refused in-domain arguments: %r' % (cname, shown, e))
             if twin:
                 raise Fail('twin reached the assertion point')
-            verify(m, cls, '%s.from_value(%r)' % (cname, shown))
+            verify(m, cls, '%s.from_value(%r)' % (cname, shown), kwargs)
 
     return 'construct_%s%s%s' % (cname, ('_' + '_'.join('%s%s' % (k, ''.join(map(str, v))) for k, v in sorted(fixed.items()))) if fixed else '', '_twin' if twin else ''), cell
 
 
-def verify(m, cls, what):
+def verify(m, cls, what, kwargs=None):
     text = text_of(m)
     docenv.tree_invariant(m, what=what + ' constructed tree')
+    for t in m.token_store:     # every constructed token: value and raw text describe each other
+        if hasattr(type(t), '_parse_value'):
+            mean = (t.indent, t.value) if isinstance(t, M.BlockComment) else t.value
+            check(type(t)._parse_value(t.raw_text) == mean, what, 'constructed token whose value and raw text disagree', docenv.R_(t), R(mean))
+    for name, arg in (kwargs or {}).items():   # the model says what it was constructed from
+        d = None
+        for k in cls.__mro__:
+            if name in vars(k):
+                d = vars(k)[name]
+                break
+        if d is None or name in ('indent_by', 'postings', 'cost', 'price', 'amount'):
+            continue
+        got = getattr(m, name)
+        if name == 'meta':
+            exp = [(k2, (text_of(v2) if isinstance(v2, M.RawModel) else v2)) for k2, v2 in (arg or {}).items()]
+            gotl = [(k2, (text_of(v2) if isinstance(v2, M.RawModel) else v2)) for k2, v2 in got.items()]
+            check(gotl == exp, what, 'meta reads', R(gotl), 'but was constructed from', R(exp))
+        elif name in ('tags', 'links', 'currencies'):
+            check(list(got) == list(arg), what, name, 'reads', R(list(got)), 'but was constructed from', R(list(arg)))
+        elif name == 'value' and isinstance(arg, M.RawModel):
+            check(text_of(got) == text_of(arg), what, 'value reads', R(text_of(got)))
+        elif isinstance(arg, (str, bool, int, D, DT, type(None))):
+            exp = arg
+            if cls is M.Transaction and name == 'narration' and arg is None and kwargs.get('payee') is not None:
+                exp = ''       # documented: payee implies narration
+            if cls is M.CostSpec and name == 'merge':
+                exp = bool(arg)
+            check(got == exp and (got is None) == (exp is None), what, name, 'reads', R(got), 'but was constructed from', R(exp))
     st = m.token_store
     check(m.first_token is st.get_first() and m.last_token is st.get_last(), what, 'constructed model is not the whole of its store')
     try:
@@ -247,7 +275,7 @@ for _cost_i in range(5):
 for _p in range(4):
     for _m in range(4):
         quick = (_p + _m) % 2 == 0
-        _reg(make_construct('Transaction', fixed={'postings': [_p], 'meta': [_m], 'indent_by': [0], 'trailing_comment': [0, 1][:1 + (_m % 2)]}),
+        _reg(make_construct('Transaction', fixed={'postings': [_p], 'meta': [_m], 'indent_by': [0], 'trailing_comment': [0, 1, 2][:1 + (_m % 2) * 2], 'leading_comment': [0, 1, 3]}),
              {'C15': Q if quick else T}, 1800, 'construct', 'Transaction.from_value with postings #%d, meta #%d: every combination of the other arguments' % (_p, _m), cost=400)
 for _n in (0, 1, 2, 3):
     _reg(make_custom(_n), {'C15': Q if _n <= 2 else T}, 1800, 'custom', 'Custom.from_value with %d values of symbolic kinds (9 kinds incl. negative numbers and amounts) x 4 meta x inline comment' % _n, cost=9 ** _n)
